@@ -143,6 +143,41 @@ FIXED = [
 ]
 
 
+MULTI = [
+	# an importing module whose symbols are imports of classes, functions and typed module-level variables of another module; a facade whose every symbol is an import
+	{'lib2.conf': "class Item:\n\tdef size(self) -> int: ...\n\nregistry: dict[str, list[Item]] = {}\nlimits: list[int] = [1, 2]\nname: str = 'n'\n\ndef factory() -> Item: ...\n",
+	 'lib2.use': "from lib2.conf import Item, factory, limits, name, registry\n\ndef f() -> None:\n\ta = registry\n\tb = limits\n\tc = factory()\n\td = name\n",
+	 'lib2.facade': "from lib2.conf import Item, factory, registry\n"},
+	{'pk.core': "from typing import Generic, TypeVar\n\nT = TypeVar('T')\n\nclass Box(Generic[T]):\n\tdef get(self) -> T: ...\n\nshared: dict[str, Box[list[int]]] = {}\npairs: list[tuple[int, str]] = []\n",
+	 'pk.app': "from pk.core import Box, pairs, shared\n\nclass User:\n\tdef m(self, b: 'Box[int]') -> 'dict[str, Box[list[int]]]':\n\t\treturn shared\n\ndef g() -> None:\n\tx = pairs\n"},
+]
+
+
+def multi_module(sources):
+	"""An application over several in-memory modules (the source provider serves them; everything else is the real pipeline)."""
+	from rogw.tranp.app.app import App
+	from rogw.tranp.lang.locator import Invoker
+	from rogw.tranp.lang.module import to_fullyname
+	from rogw.tranp.module.modules import Modules
+	from rogw.tranp.module.types import ModulePath, ModulePaths
+	from rogw.tranp.providers.syntax.ast import source_provider
+	from rogw.tranp.syntax.ast.parser import SourceProvider
+	holder = {}
+
+	def provider():
+		def handler(module_path: str) -> str:
+			if module_path in sources:
+				return sources[module_path]
+			return holder['app'].resolve(Invoker)(source_provider)(module_path)
+		return handler
+	app = App({to_fullyname(ModulePaths): lambda: [ModulePath(m, language='py') for m in sources], to_fullyname(SourceProvider): provider})
+	holder['app'] = app
+	mods = app.resolve(Modules)
+	for m in sources:
+		mods.load(m)
+	return app
+
+
 def table_ops(rng, n_hist, n_ops):
 	"""Random operation histories on a real SymbolDB against a reference model (a dict and a list)."""
 	from rogw.tranp.errors import Errors
@@ -226,6 +261,19 @@ def run(tier: str, seed: int = 0):
 			fails += f
 			n += 1
 			rows += r
+		# multi-module programs: symbols that are imports (classes, functions, typed variables) of another generated module
+		for sources in MULTI:
+			try:
+				app = multi_module(sources)
+			except Exception as e:  # noqa: BLE001
+				fails.append({'what': f'multi-module program does not load: {type(e).__name__}: {str(e)[:100]}', 'program': str(sources)[:300]})
+				continue
+			mdb, mser = app.resolve(SymbolDB), app.resolve(IReflectionSerializer)
+			for mp in sources:
+				f, r = check_module(mdb, mser, mp, SymbolDB, ModuleDSN, f'module {mp} of {sorted(sources)}: ' + sources[mp])
+				fails += f
+				n += 1
+				rows += r
 		steps, f2 = table_ops(random.Random(14_500 + seed), 60 if tier == 'quick' else 600, 14)
 		return n, rows + steps, fails + f2
 	finally:
